@@ -146,6 +146,14 @@ def spec_check(t, pub, ty, bs, qm, un, d, vbits, got):
         SPEC_STATS["skipped_range"] += 1
         return None
     ex, inter, n, offs = r
+    # value-independent intermediates (base factor, coefficient quotients) must be representable:
+    # otherwise "no overflow or underflow intervenes" fails whatever the value (0 * inf = NaN)
+    kf = pub[(ty, qm, un)][0]
+    fq = inter[-2]      # kf / f
+    fixed = [x for x in inter[:-3]] + [fq, 1 / fq, kf]
+    if not all(FC.in_normal_range(x, ty) for x in fixed):
+        SPEC_STATS["skipped_range"] += 1
+        return None
     if v == 0 and offs == 0:
         # zero maps to zero exactly
         SPEC_STATS["checked"] += 1
